@@ -371,6 +371,32 @@ def position_primitives_rule(program, res, rule="C18-S4"):
         raise AnalysisError("Pandas _extend_step: cumcount() use not found")
 
 
+def order_sensitive_functions_rule(program, res, rule="C18-S4"):
+    """the generic path of a windowed extend hands the operator's name to pandas' groupby.transform.  For the names whose pandas meaning depends on
+    the order of a group's rows (facts.PANDAS_ORDER_SENSITIVE_TRANSFORMS) the builder has to demand an ordered window (they belong to
+    fn_names_that_imply_ordered_windowed_situation), or the value follows the physical row order of the input"""
+    from .. import facts
+    er = program.module("expr_rep")
+    oset = er.consts.get("fn_names_that_imply_ordered_windowed_situation")
+    if not isinstance(oset, ast.Set):
+        raise AnalysisError("anchor vanished: expr_rep.fn_names_that_imply_ordered_windowed_situation")
+    ordered_only = {e.value for e in oset.elts if isinstance(e, ast.Constant)}
+    # names the library accepts as window functions at all: the Term methods
+    term = program.cls("expr_rep", "Term")
+    known = set(term.methods)
+    n = 0
+    for name in sorted(facts.PANDAS_ORDER_SENSITIVE_TRANSFORMS & known):
+        n += 1
+        if name in ordered_only:
+            res.ok(rule, f"`{name}` (order-sensitive in pandas) is accepted only in an ordered window")
+        else:
+            res.fail(rule, "expr_rep:fn_names_that_imply_ordered_windowed_situation", f"order-sensitive-function-unordered:{name}",
+                     f"`{name}` is not in fn_names_that_imply_ordered_windowed_situation, so extend({{'f': 'z.{name}()'}}, partition_by=['g']) is accepted without order_by; "
+                     f"pandas' groupby {name} follows the order of the group's rows — the same rows listed backwards give another value (Pandas and Polars)",
+                     "data_algebra/expr_rep.py", getattr(oset, "lineno", 0))
+    res.expect_count(rule, "order-sensitive pandas transforms known to Term", n, 6)
+
+
 def limit_domain_rule(program, res, rule="C18-S5"):
     """`limit=k` means "the first k rows": the back ends agree on that only for k >= 0 (Pandas head(-1) drops the last row, SQL LIMIT -1 means
     no limit, Polars raises) — the constructor has to refuse a negative limit"""
@@ -405,5 +431,6 @@ def run(program, res, tier):
     _s3(program, res)
     res.rule("C18-S4", "row-numbering primitives only under an ordered window")
     position_primitives_rule(program, res)
+    order_sensitive_functions_rule(program, res)
     res.rule("C18-S5", "a limit is a non-negative row count")
     limit_domain_rule(program, res)
